@@ -219,6 +219,9 @@ theorem C06_no_5xx_of_its_own (T : Nat) (st : RState) (i : In)
         | error code =>
           rw [extract_fresh_raised hfr hr]
           exact ⟨m, rfl, by simp [respondExtract, errResp, Outcome.code, hr]⟩
+        | junk =>
+          rw [extract_fresh_junk hfr hr]
+          exact ⟨m, rfl, by simp [respondExtract, errResp, Outcome.code, hr]⟩
         | ok a =>
           rw [extract_fresh hfr hr] at h5 ⊢
           refine ⟨m, ?_, ?_⟩
@@ -316,6 +319,19 @@ theorem C06_handler_error_drops_rendering (T : Nat) (st : RState) (i : In) (m : 
   rw [step_pass hp, extract_fresh_raised hf hr]
   exact ⟨rfl, rfl, delIf_lookup_self _ _⟩
 
+/-- **C06 (a handler that returns no message leaves no rendering).** A request for the beginning on
+which the handler returns something that is not a message (`None`, a string: `render` of a resource
+written against `interfaces.Resource` directly) is answered 5.00; the handler was invoked once with
+`m`; and nothing stays kept under the block key — the rendering made for an earlier request for the
+beginning went when this one arrived. -/
+theorem C06_handler_nonmessage_drops_rendering (T : Nat) (st : RState) (i : In) (m : Msg)
+    (hp : Passes T st i m) (hf : isFresh m = true) (hr : i.render m = .junk) :
+    (step T st i).2.resp = errResp INTERNAL_SERVER_ERROR none ∧
+    (step T st i).2.seen = some m ∧
+    alookup (blockKey m) (step T st i).1.cache.items = none := by
+  rw [step_pass hp, extract_fresh_junk hf hr]
+  exact ⟨rfl, rfl, delIf_lookup_self _ _⟩
+
 /-- **C06 (beyond the end → 4.00).** If the governing block starts at or beyond the end of the
 representation the request is answered from, the answer is 4.00 Bad Request, for a fresh
 rendering as well as for a kept one. -/
@@ -326,7 +342,7 @@ theorem C06_beyond_end_4_00 (T : Nat) (st : RState) (i : In) (m : Msg) (a : Resp
     (step T st i).2.resp = errResp BAD_REQUEST none ∧
     (step T st i).2.seen = if isFresh m then some m else none := by
   rw [step_pass hp, extract_of_source hsrc hchunk]
-  simp only [sliceOf, extractBlock_none hout, respondExtract]
+  simp only [sliceOf, extractBlock_none hout (start_pos_of_chunking hchunk hout), respondExtract]
   refine ⟨?_, ?_⟩ <;> first | rfl | trivial
 
 /-- **C06 (later block without rendering → 4.08).** A request for a later block (`num ≠ 0`) under
@@ -448,6 +464,7 @@ theorem C06_completed_upload_reaches_handler (T : Nat) (st : RState) (i : In) (b
   cases hr : i.render m with
   | ok a => rw [extract_fresh hf hr]; split <;> rfl
   | error code => rw [extract_fresh_raised hf hr]; rfl
+  | junk => rw [extract_fresh_junk hf hr]; rfl
 
 /-- **C06 (observable resources).** `ObservableResource._render_to_pipe` sets up an observation
 only for a request with Observe: 0 that carries no Block1 option and asks for the beginning of the
@@ -922,6 +939,7 @@ theorem C06_overlap_handler_sees_concatenation (T : Nat) (pre : List Ev) (a : Ar
     cases hr : (inOf a).render m with
     | ok r => simp [inOf] at hr
     | error code => rw [extract_fresh_raised hfresh hr]; rfl
+    | junk => simp [inOf] at hr
   exact C06_handler_sees_concatenation T (arrivals pre) (inOf a) m ha hs
 
 /-- **C06 (overlapping handlers: later blocks come from the rendering of the latest request for the
@@ -995,6 +1013,111 @@ theorem C06_overlap_completion (T : Nat) (st : CState) (now id : Nat) (out : Out
   · intro hne
     have : (alookup (blockKey p.m) st.building == some id) = false := by simp [hne]
     simp [cfinish, hfind, hv, this, afterBuild_not_latest]
+
+/-- **C06 (overlapping handlers: the rendering of the latest request is kept).** The positive side of
+the theorems above (which a cache that never stores anything would satisfy as well): when the
+handler of a pending request for the beginning returns a message `a` that has to be cut, and the
+request is still the latest one for the beginning under its block key (its token is the one in
+`_building`), then the request is answered with its block of `a`, afterwards `a` is what is kept
+under the block key, and nothing is being built under it any more. -/
+theorem C06_overlap_latest_rendering_is_kept (T : Nat) (st : CState) (now id : Nat) (a : Resp)
+    (p : Pending) (hfind : st.pending.find? (fun q => q.id == id) = some p) (hv : p.viaCache = true)
+    (hlat : alookup (blockKey p.m) st.building = some id)
+    (hchunk : needsChunking p.m a.payload.length = true) :
+    (cfinish T st now id (.ok a)).2.resp = some (respondExtract p.m (sliceOf a p.m)) ∧
+    alookup (blockKey p.m) (cfinish T st now id (.ok a)).1.r.cache.items = some a ∧
+    alookup (blockKey p.m) (cfinish T st now id (.ok a)).1.building = none := by
+  have hlat' : (alookup (blockKey p.m) st.building == some id) = true := by simp [hlat]
+  refine ⟨?_, ?_, ?_⟩ <;>
+    simp [cfinish, hfind, hv, hlat', afterBuild, hchunk, alookup_aerase_self, TD.set, accessed_items,
+      alookup_ainsert_self]
+
+/-- **C06 (overlapping handlers: a kept rendering is served).** In any state in which no request for
+the beginning is being built under a block key and `a` is kept under it as the timers due at the
+arrival have run (it has not expired), a request for a later block under that key is answered at
+once with its block of `a` (`sliceOf`: the slice of `C06_block2_is_slice`, 4.00 beyond the end),
+without the handler; and `a` stays kept and nothing is being built, so the same holds for the next
+such request. -/
+theorem C06_overlap_kept_rendering_is_served (T : Nat) (st : CState) (x : Arr) (m : Msg) (b : Blk)
+    (a : Resp) (ha : x.assemble = true)
+    (hp : (feedAndTake T x.now (st.r.spool.advance T x.now) x.req).2 = .pass m)
+    (hb : m.block2 = some b) (h0 : b.num ≠ 0)
+    (hnb : alookup (blockKey m) st.building = none)
+    (hl : alookup (blockKey m) (st.r.cache.advance T x.now).items = some a) :
+    (carrive T st x).2.resp = some (respondExtract m (sliceOf a m)) ∧
+    (carrive T st x).2.seen = none ∧ (carrive T st x).2.ticket = none ∧
+    alookup (blockKey m) (carrive T st x).1.r.cache.items = some a ∧
+    (carrive T st x).1.building = st.building := by
+  have hf : isFresh m = false := isFresh_later hb h0
+  have hbld : isBuilding st (blockKey m) = false := by simp [isBuilding, hnb]
+  refine ⟨?_, ?_, ?_, ?_, ?_⟩ <;>
+    simp [carrive, ha, hp, hf, hbld, COut.answer, extract_later_some hb h0 hl, TD.set, accessed_items,
+      alookup_ainsert_self]
+
+/-- **C06 (overlapping handlers: later blocks are cut from the rendering of the latest request).**
+The two together: the handler of the latest request for the beginning under a block key returns `a`
+(which needs cutting) — whatever older requests under that key are still being rendered —, and the
+next event is a request for a later block under the same key that arrives before the rendering has
+expired (`present` as the timers due have run; `C06_lifetime`: at every time before `now + T`):
+that block is cut from `a`. -/
+theorem C06_overlap_latest_rendering_is_served (T : Nat) (st : CState) (now id : Nat) (a : Resp)
+    (p : Pending) (hfind : st.pending.find? (fun q => q.id == id) = some p) (hv : p.viaCache = true)
+    (hlat : alookup (blockKey p.m) st.building = some id)
+    (hchunk : needsChunking p.m a.payload.length = true)
+    (x : Arr) (m : Msg) (b : Blk) (ha : x.assemble = true)
+    (hp : (feedAndTake T x.now ((cfinish T st now id (.ok a)).1.r.spool.advance T x.now) x.req).2 = .pass m)
+    (hb : m.block2 = some b) (h0 : b.num ≠ 0) (hk : blockKey m = blockKey p.m)
+    (hpresent : ((cfinish T st now id (.ok a)).1.r.cache.advance T x.now).present (blockKey m) = true) :
+    (carrive T (cfinish T st now id (.ok a)).1 x).2.resp = some (respondExtract m (sliceOf a m)) ∧
+    (carrive T (cfinish T st now id (.ok a)).1 x).2.seen = none := by
+  obtain ⟨_, hkept, hnb⟩ := C06_overlap_latest_rendering_is_kept T st now id a p hfind hv hlat hchunk
+  rw [← hk] at hkept hnb
+  have hl : alookup (blockKey m) ((cfinish T st now id (.ok a)).1.r.cache.advance T x.now).items =
+      some a := by
+    cases hl : alookup (blockKey m) ((cfinish T st now id (.ok a)).1.r.cache.advance T x.now).items with
+    | none => simp [TD.present, hl] at hpresent
+    | some v =>
+      have := advance_lookup_some hl
+      rw [hkept] at this
+      rw [← Option.some.inj this]
+  have := C06_overlap_kept_rendering_is_served T _ x m b a ha hp hb h0 hnb hl
+  exact ⟨this.1, this.2.1⟩
+
+/-- **C06 (overlapping handlers: a request for the beginning drops what is kept when it arrives).**
+From the arrival of a request for the beginning nothing is kept under its block key, and it is the
+one being built (`_building` holds its token): later blocks get 4.08
+(`C06_overlap_no_rendering_of_latest_4_08`) until a rendering of the latest request is stored. -/
+theorem C06_overlap_arrival_drops_rendering (T : Nat) (st : CState) (x : Arr) (m : Msg)
+    (ha : x.assemble = true)
+    (hp : (feedAndTake T x.now (st.r.spool.advance T x.now) x.req).2 = .pass m)
+    (hf : isFresh m = true) :
+    alookup (blockKey m) (carrive T st x).1.r.cache.items = none ∧
+    alookup (blockKey m) (carrive T st x).1.building = some st.next ∧
+    (carrive T st x).2.ticket = some st.next := by
+  refine ⟨?_, ?_, ?_⟩ <;> simp [carrive, ha, hp, hf, delIf_lookup_self, alookup_ainsert_self]
+
+/-- **C06 (overlapping handlers: a request that ends without a rendering leaves nothing kept).**
+When nothing is kept under the block key of a pending request for the beginning (as its arrival left
+it) and its handler ends without a rendering to keep — it raises, it returns something that is not a
+message, or its response needs no cutting — nothing is kept afterwards either, whether the request
+is still the latest or not; a handler that returned no message is answered 5.00. -/
+theorem C06_overlap_no_rendering_nothing_kept (T : Nat) (st : CState) (now id : Nat) (out : Outcome)
+    (p : Pending) (hfind : st.pending.find? (fun q => q.id == id) = some p) (hv : p.viaCache = true)
+    (hnone : alookup (blockKey p.m) st.r.cache.items = none)
+    (hout : ∀ a, out = .ok a → needsChunking p.m a.payload.length = false) :
+    alookup (blockKey p.m) (cfinish T st now id out).1.r.cache.items = none ∧
+    (out = .junk →
+      (cfinish T st now id out).2.resp = some (errResp INTERNAL_SERVER_ERROR none)) := by
+  have hadv := advance_lookup_none (T := T) (now := now) hnone
+  constructor
+  · simp only [cfinish, hfind, hv, ↓reduceIte]
+    cases out with
+    | error code => simpa [afterBuild] using hadv
+    | junk => simpa [afterBuild] using hadv
+    | ok a => simpa [afterBuild, hout a rfl] using hadv
+  · intro hj
+    subst hj
+    simp [cfinish, hfind, hv, afterBuild, respondExtract]
 
 /-- the log of handler invocations, spelled out: an arrival on which the handler is invoked through
 the rendering cache with `m` appends `(blockKey m, token)` to `started` — in order of *arrival* —, a
@@ -1286,6 +1409,40 @@ example : ((cstateAfter 100 CState.init (overlapHistory.take 5)).pending.find? (
       = some true ∧
     alookup (blockKey (getA ⟨0, false, 0⟩)) (cstateAfter 100 CState.init (overlapHistory.take 5)).building = none :=
   by decide
+/-- `C06_overlap_latest_rendering_is_kept` / `…_is_served` at the fourth event (`.finish 2 1 …`): token 1
+is pending, it is the one in `_building`, its outcome needs cutting; afterwards its rendering is what
+is kept, and the next event — block 1 at time 3, the rendering still present — is bytes of it -/
+example : ((cstateAfter 100 CState.init (overlapHistory.take 3)).pending.find? (fun q => q.id == 1)).map
+      (fun p => (p.viaCache, p.m)) = some (true, getA ⟨0, false, 0⟩) ∧
+    alookup (blockKey (getA ⟨0, false, 0⟩)) (cstateAfter 100 CState.init (overlapHistory.take 3)).building
+      = some 1 ∧
+    needsChunking (getA ⟨0, false, 0⟩) 40 = true := by decide
+example : (alookup (blockKey (getA ⟨0, false, 0⟩))
+      (cstateAfter 100 CState.init (overlapHistory.take 4)).r.cache.items).map (·.payload) =
+      some (List.replicate 40 2) ∧
+    ((cstateAfter 100 CState.init (overlapHistory.take 4)).r.cache.advance 100 3).present
+      (blockKey (getA ⟨1, false, 0⟩)) = true ∧
+    ((crun 100 CState.init overlapHistory)[4]?).map (fun o => o.resp.map (·.payload)) =
+      some (some (List.replicate 16 2)) := by decide
+/-- a handler that returns no message: rendering 1 is kept and block 1 served from it; a second
+request for the beginning returns a non-message and is answered 5.00; block 1 is then answered 4.08
+(`C06_overlap_arrival_drops_rendering`, `C06_overlap_no_rendering_nothing_kept`), also while that
+request is still under way -/
+private def junkHistory : List Ev :=
+  [ .arrive { now := 0, assemble := true, req := getA ⟨0, false, 0⟩ },
+    .finish 0 0 (rendering 1),
+    .arrive { now := 1, assemble := true, req := getA ⟨1, false, 0⟩ },
+    .arrive { now := 2, assemble := true, req := getA ⟨0, false, 0⟩ },
+    .arrive { now := 3, assemble := true, req := getA ⟨1, false, 0⟩ },
+    .finish 4 1 .junk,
+    .arrive { now := 5, assemble := true, req := getA ⟨1, false, 0⟩ } ]
+example : (crun 100 CState.init junkHistory).map
+      (fun o => (o.resp.map (fun r => (r.code, r.block2, r.payload.head?)), o.ticket)) =
+    [ (none, some 0), (some (69, some ⟨0, true, 0⟩, some 1), some 0),
+      (some (69, some ⟨1, true, 0⟩, some 1), none),
+      (none, some 1), (some (136, none, none), none),
+      (some (160, none, none), some 1),
+      (some (136, none, none), none) ] := by decide
 /-- `C06_atomic_is_step`: its hypotheses hold in the initial state, and in a state where another block
 key has a pending request -/
 example : (∀ q ∈ CState.init.pending, q.id ≠ CState.init.next) ∧
